@@ -30,13 +30,19 @@ BOUNDS = {
              'the cache or its sub-cache) over 2 keys (first use of a key canonically "a") for Storage, PickleStorage, '
              'Hdf5Storage, every prefix observed (contains, len, iter, bool); ThreadedStorage over PickleStorage: all '
              'sequences of 3 operations x every worker progress at every synchronisation point, max_queue_size 2; '
-             'ThreadedStorage over Hdf5Storage and fault injection (the i-th disk operation raises): 3 operations',
+             'ThreadedStorage over Hdf5Storage and fault injection (the i-th disk operation raises): 3 operations; '
+             'threaded-deep: ThreadedStorage over PickleStorage on a REDUCED alphabet (one key; set, read, del, preload, '
+             'set_short_term_keys(k), set_short_term_keys(); no sub-cache, close only at the end): all sequences of 5 operations x '
+             'every worker progress; models.selftest: fixed scenarios executed on the real Worker under a deadline (plain '
+             'execution in both modes validating the Worker contract model, not a solver claim)',
     'thorough': 'EventHandler: 5 operations; caches: 5 operations incl. sub-caches for Storage; PickleStorage / Hdf5Storage: 5 '
                 'operations without sub-caches and 4 operations with sub-caches; ThreadedStorage over PickleStorage: 4 operations '
-                '(with sub-caches), over Hdf5Storage: 4 operations without and 3 with sub-caches; fault injection: 4 operations',
+                '(with sub-caches), over Hdf5Storage: 4 operations without and 3 with sub-caches; fault injection: 4 operations; '
+                'threaded-deep (reduced one-key alphabet): 6 operations',
 }
-OUTSIDE = ('the real Worker thread (real threads, queue time-outs, deadlock freedom of close): NOT APPLICABLE, replaced by '
-           'a contract model; bytes written by the C pickle module / real h5py in symbolic mode (h5py is modelled there); '
+OUTSIDE = ('the real Worker thread (real threads, queue time-outs, deadlock freedom of close): NOT APPLICABLE to the solver, replaced by '
+           'a contract model; the model is validated by executing fixed scenarios (FIFO, failing task while the caller waits in '
+           'join_tasks, failing task with queued tasks, clean exit) on the real Worker under a deadline: execution, not a proof; bytes written by the C pickle module / real h5py in symbolic mode (h5py is modelled there); '
            'keys that collide with the sub-cache name; _NumpyStorage / _NpcArrayStorage (private); aliasing of stored '
            'mutable values; more than 2 keys / longer sequences')
 STUBS = [
@@ -237,9 +243,9 @@ class _Driver:
         self.targets = [('main', self.cache, _Model())]
 
     # ---------------------------------------------------------------- alphabet of the next step
-    def alphabet(self, with_sub, allow_close):
+    def alphabet(self, with_sub, allow_close, n_keys=len(KEYS)):
         keys = list(self.used_keys)
-        for k in KEYS:
+        for k in KEYS[:n_keys]:
             if k not in keys:
                 keys.append(k)  # the first unused key only (keys are interchangeable)
                 break
@@ -417,15 +423,20 @@ def cache_case(ctx, storage, n_ops, first=None, with_sub=True):
             drv.cleanup()
 
 
-def threaded_case(ctx, storage, n_ops, first=None, fault=False, with_sub=True):
-    """the same sequences through ThreadedStorage, the worker's progress at every synchronisation point symbolic"""
+def threaded_case(ctx, storage, n_ops, first=None, fault=False, with_sub=True, deep=False):
+    """the same sequences through ThreadedStorage, the worker's progress at every synchronisation point symbolic.
+    deep=True: reduced alphabet (one key: set, read, del, preload, short{k}, short{}; no sub-cache, no early close; the cache
+    is closed at the end of every sequence) for longer sequences"""
     with tempdir('verif_c20_') as td:
         fail_at = choice(ctx, 'fail_at', 2 * n_ops) if fault else None
         drv = _Driver(ctx, storage, td, threaded=True, fail_at=fail_at)
         W = drv.worker
         try:
             for t in range(n_ops):
-                ops = _part(drv.alphabet(with_sub and not fault, allow_close=True), first, t)
+                if deep:
+                    ops = _part(drv.alphabet(False, allow_close=False, n_keys=1), first, t)
+                else:
+                    ops = _part(drv.alphabet(with_sub and not fault, allow_close=True), first, t)
                 if not ops:
                     break
                 op, ti, k = ops[choice(ctx, f'op{t}', len(ops))]
@@ -497,26 +508,35 @@ def _h5_script(h5, filename):
 
 
 def model_selftest(ctx):
-    """the models of the trusted base against the real thing (concrete mode; the symbolic run only records it)"""
-    if ctx.symbolic:
-        from symx import h5model, workermodel
-        ctx.prove(callable(h5model.File) and callable(workermodel.WorkerModel), 'models importable (compared with the real classes in concrete mode)')
-        return
-    import h5py
+    """the models of the trusted base against the real thing.  Worker part: fixed scenarios, plain execution in BOTH modes
+    (tenpy.tools.thread is pure Python), every scenario on the real Worker under a deadline so that a hang is reported as
+    a violation of 'a failing worker surfaces as an error rather than a hang'.  h5py part: concrete mode only."""
     from symx import h5model, workermodel
     from tenpy.tools.thread import Worker
+    for name, fn in workermodel.SCENARIOS:
+        real = workermodel.run_scenario(fn, lambda: Worker(max_queue_size=2, daemon=True), deadline_s=WORKER_DEADLINE_S)
+        if real is workermodel.HANG:
+            ctx.fail(f'real Worker: {name}', f'the scenario did not return within {WORKER_DEADLINE_S} s (hang)')
+            continue
+        ctx.prove(not any(r[0] == 'scenario raised' for r in real), f'real Worker: {name}: scenario runs')
+        for sched in ('lazy', 'eager'):
+            model = workermodel.run_scenario(fn, lambda: workermodel.WorkerModel(None, max_queue_size=2, schedule=sched))
+            for r, m in zip(real, model):
+                ctx.prove(r == m, f'real Worker agrees with the contract model ({sched}): {name}: {r[0]}')
+            ctx.prove(len(real) == len(model), f'real Worker / model ({sched}): {name}: same number of observations')
+    if ctx.symbolic:
+        ctx.prove(callable(h5model.File), 'h5py model importable (compared with real h5py in concrete mode)')
+        return
+    import h5py
     with tempdir('verif_c20_') as td:
         real = _h5_script(h5py, os.path.join(td, 'real.h5'))
         model = _h5_script(h5model, os.path.join(td, 'model.h5'))
     for r, m in zip(real, model):
         ctx.prove(r == m, f'h5py model agrees with real h5py: {r[0]}')
     ctx.prove(len(real) == len(model), 'h5py script lengths')
-    real = workermodel.selftest_script(lambda: Worker(max_queue_size=2))
-    for sched in ('lazy', 'eager'):
-        model = workermodel.selftest_script(lambda: workermodel.WorkerModel(None, max_queue_size=2, schedule=sched))
-        for r, m in zip(real, model):
-            ctx.prove(r == m, f'Worker contract model ({sched}) agrees with the real Worker: {r[0]}')
-        ctx.prove(len(real) == len(model), 'worker script lengths')
+
+
+WORKER_DEADLINE_S = 8.
 
 
 # ======================================================================================== cases
@@ -535,13 +555,16 @@ def CASES(tier, seed):
     cases.append(dict(name=f'events[n={5 if thorough else 4}]', fn='events_case', params=dict(n_ops=5 if thorough else 4), opts=dict(big)))
     # alphabet of the first step: set/read/del/preload/short{a}/short{}/subcache/close/exit = 9 (8 without sub-cache)
 
-    def add(kind, storage, n, with_sub, parts, fault=False):
+    def add(kind, storage, n, with_sub, parts, fault=False, deep=False):
         fn = 'cache_case' if kind == 'cache' else 'threaded_case'
         for first in parts:
             params = dict(storage=storage, n_ops=n, first=first, with_sub=with_sub)
             if fault:
                 params['fault'] = True
-            cases.append(dict(name=f"{kind}[{storage},n={n},{'sub' if with_sub else 'nosub'},part={_tag(first)}]", fn=fn, params=params, opts=dict(big)))
+            if deep:
+                params['deep'] = True
+            tag = '1key' if deep else ('sub' if with_sub else 'nosub')
+            cases.append(dict(name=f"{kind}[{storage},n={n},{tag},part={_tag(first)}]", fn=fn, params=params, opts=dict(big)))
 
     if not thorough:
         for storage in ('Storage', 'PickleStorage', 'Hdf5Storage'):
@@ -549,6 +572,7 @@ def CASES(tier, seed):
         for storage in ('PickleStorage', 'Hdf5Storage'):
             add('threaded', storage, 3, True, _parts(3))
         add('threaded-fault', 'PickleStorage', 3, False, _parts(4), fault=True)
+        add('threaded-deep', 'PickleStorage', 5, False, _parts(6, 6), deep=True)
     else:
         add('cache', 'Storage', 5, True, _parts(9, 4))
         for storage in ('PickleStorage', 'Hdf5Storage'):
@@ -558,4 +582,5 @@ def CASES(tier, seed):
         add('threaded', 'Hdf5Storage', 4, False, _parts(8, 2))
         add('threaded', 'Hdf5Storage', 3, True, _parts(3))
         add('threaded-fault', 'PickleStorage', 4, False, _parts(8, 4), fault=True)
+        add('threaded-deep', 'PickleStorage', 6, False, _parts(6, 6), deep=True)
     return cases
